@@ -625,6 +625,25 @@ def readdBuilder (m : Rc.Upd.Msg) (f : Fam) (ap : Bool) : Outcome (NlBuilder f) 
   | .err => .err
   | .panic => .panic
 
+/-- the builder of `readdBuilder` after `add_announcements_from_pdu` + `add_withdrawals_from_pdu`
+of the same message a SECOND time (request `nlt`): the calls find the MP builders of the first
+round and extend them (update_builder.rs:250, :277) -/
+def readdTwiceBuilder (m : Rc.Upd.Msg) (f : Fam) (ap : Bool) : Outcome (NlBuilder f) :=
+  match readdBuilder m f ap with
+  | .ok b1 =>
+    match addAnnouncementsFromPdu m f ap b1 with
+    | .ok b2 => addWithdrawalsFromPdu m f ap b2
+    | .err => .err
+    | .panic => .panic
+  | .err => .err
+  | .panic => .panic
+
+def readdTwicePdu (cfg : Rc.Upd.Cfg) (m : Rc.Upd.Msg) (f : Fam) (ap : Bool) : Outcome Bytes :=
+  match readdTwiceBuilder m f ap with
+  | .ok b => nlIntoMessage cfg f ap b
+  | .err => .err
+  | .panic => .panic
+
 /-- ... and `into_message(&session_config)`: the PDU that carries the message's attributes
 and its NLRI of family `f` again -/
 def readdPdu (cfg : Rc.Upd.Cfg) (m : Rc.Upd.Msg) (f : Fam) (ap : Bool) : Outcome Bytes :=
